@@ -16,5 +16,5 @@ PROP = dict(
          'non-trivial = all operands >= 2 digits and (a structured value class or aliasing or an edge digit/shift operand); distinct = distinct (op, digit-count buckets, value classes, alias pattern, signs)',
     assumptions=['GMP 6.x is correct', 'functions are called inside the domain their documentation and in-tree callers define (see level_note)'],
     targets=[dict(name='c13_bignum', src=['props/C13/bignum.cc'], libs=['-lgmp'], hang_is_violation=True,
-                  quick=dict(cases=500000, secs=60), thorough=dict(cases=30000000, secs=840, grace=120))],
+                  quick=dict(cases=400000, secs=60), thorough=dict(cases=30000000, secs=840, grace=120))],
 )
